@@ -137,6 +137,10 @@ def mutants(args):
             for prop in checks:
                 t0 = time.time()
                 r = sh([os.path.join(VERIF, "check"), prop, "quick"], env=env, cwd=VERIF)
+                if r.returncode not in (0, 1):
+                    # the check itself did not run (build failure of the changed tree, harness error): neither caught nor quiet; once more
+                    print("    %s: check exited %d, running it again\n%s" % (prop, r.returncode, (r.stdout + r.stderr)[-400:]))
+                    r = sh([os.path.join(VERIF, "check"), prop, "quick"], env=env, cwd=VERIF)
                 hit = r.returncode == 1 and ("VIOLATION property=%s" % prop) in r.stdout
                 first = [l for l in r.stdout.splitlines() if l.startswith("  clause=")]
                 caught.append((prop, hit, first[0][:160] if first else "", time.time() - t0))
